@@ -47,10 +47,7 @@ struct Mat_exec {
       }
       if (s.ncols < 2) return false;
       unsigned a = (unsigned)(op.arg(1) % s.ncols), b = (unsigned)(op.arg(2) % s.ncols);
-      if (op.name == "m_add") {
-        if (a == b) return false;
-        m.add_to(a, b); return true;
-      }
+      if (op.name == "m_add") { m.add_to(a, b); return true; }  // also a column onto itself
       if (op.name == "m_zero") { if constexpr (!Opt::has_column_compression) { unsigned row = (unsigned)(op.arg(3) % NR); if (Opt::has_column_and_row_swaps && !row_known(m, s, row)) return false; m.zero_entry(b, row); return true; } else return false; }
       if (op.name == "m_swap") { if constexpr (Opt::has_column_and_row_swaps && !Opt::has_column_compression) { unsigned r1 = (unsigned)(op.arg(1) % NR), r2 = (unsigned)(op.arg(2) % NR); if (!row_known(m, s, r1) || !row_known(m, s, r2)) return false; m.swap_rows(r1, r2); return true; } else return false; }
       return false;
